@@ -195,10 +195,13 @@ example : openCommand [120, 32, 34, 97, 32, 98, 34] 5 [([75], [118])] =
      when no write end is left) the protocol write-all / close stdin / read both streams to end-of-file / join
      against a child that reads its input and then writes its outputs never deadlocks, always ends, and ends
      with all three byte streams intact and the exit code delivered -- for every capacity >= 1, all payloads,
-     all chunkings and all schedules.
+     all chunkings and all schedules;
+   * `join_returns_exit_code` -- over the same pipe model with `join()` as the action list it is coded as (waitpid, then the
+     closes): a child that still writes to its redirected streams after join() was entered is never hit by SIGPIPE and
+     join() stores its exit code, for all outputs that fit the pipes and all schedules.
   Missing (and not provable here): that Linux behaves like these two models, and that execvpe hands argv/envp
   unchanged to the new program.  That is what the correspondence streams `run`, `io` (sizes around the real pipe
-  capacity), `exit`, `execfail`, `p`, `killtest` (descriptors of parent and child inspected through /proc) test.
+  capacity), `exit`, `late`, `sig`, `killbusy`, `execfail`, `p`, `killtest`, `fdtable` (descriptors of parent and child inspected through /proc) test.
 -/
 theorem process_delivery_partial (executable : Str) (args : List Str) (streams : Nat) (env : List (Str × Str)) :
     openList executable args streams env =
